@@ -106,13 +106,41 @@ func runC20(r *simkit.Run) {
 		pk                   string
 	}
 	var got []handed
-	refuse := map[int64]bool{} // eons the mechanism refuses
+	refuse := map[int64]bool{}     // eons the mechanism refuses
+	refuseKind := map[int64]int{}  // callback mode: 0 plain error, 1 wraps context.DeadlineExceeded, 2 wraps context.Canceled
+	slow := map[int64]time.Duration{} // eons whose hand-over keeps the mechanism busy for a while (fake time)
+	refusedActual := map[int64]bool{} // eons for which the mechanism really answered with an error
+	// a busy mechanism: the consumer takes the key only after d, or gives up when the caller's context ends
+	busy := func(ctx context.Context, eon int64) error {
+		d := slow[eon]
+		if d == 0 {
+			return nil
+		}
+		select {
+		case <-ctx.Done():
+			return ctx.Err()
+		case <-time.After(d):
+			return nil
+		}
+	}
 	msg := p2p.VerifNewMessaging()
 	var opts []keyper.Option
 	if !broadcast {
 		opts = append(opts, keyper.NoBroadcastEonPublicKey(), keyper.WithEonPublicKeyHandler(func(_ context.Context, k keyper.EonPublicKey) error {
+			if err := busy(ctx, int64(k.Eon)); err != nil {
+				refusedActual[int64(k.Eon)] = true
+				r.Eventf("callback for eon %d gave up: caller's context ended", k.Eon)
+				return err
+			}
 			if refuse[int64(k.Eon)] {
-				r.Eventf("callback refuses eon %d", k.Eon)
+				refusedActual[int64(k.Eon)] = true
+				r.Eventf("callback refuses eon %d (kind %d)", k.Eon, refuseKind[int64(k.Eon)])
+				switch refuseKind[int64(k.Eon)] {
+				case 1:
+					return fmt.Errorf("publication backend: %w", context.DeadlineExceeded)
+				case 2:
+					return fmt.Errorf("publication backend: %w", context.Canceled)
+				}
 				return fmt.Errorf("publication refused")
 			}
 			got = append(got, handed{k.Eon, k.KeyperConfigIndex, k.ActivationBlock, string(k.PublicKey)})
@@ -122,9 +150,14 @@ func runC20(r *simkit.Run) {
 	}
 	msg.AddMessageHandler(epochkghandler.NewEonPublicKeyHandler(cCfg{addr: me.Addr, maxKey: 8}, pool))
 	// in broadcast mode a refusing mechanism = the node's own topic validator rejecting the publish
-	msg.AddValidator(func(_ context.Context, m p2pmsg.Message) (pubsub.ValidationResult, error) {
+	msg.AddValidator(func(ctx context.Context, m p2pmsg.Message) (pubsub.ValidationResult, error) {
 		k := m.(*p2pmsg.EonPublicKey)
+		if err := busy(ctx, int64(k.Eon)); err != nil {
+			refusedActual[int64(k.Eon)] = true
+			return pubsub.ValidationReject, nil
+		}
 		if refuse[int64(k.Eon)] {
+			refusedActual[int64(k.Eon)] = true
 			return pubsub.ValidationReject, nil
 		}
 		return pubsub.ValidationAccept, nil
@@ -191,6 +224,7 @@ func runC20(r *simkit.Run) {
 	}
 
 	var all []*c20Key
+	var slowTotal time.Duration
 	nextEon := int64(1)
 	nticks := c.Range(3, 8, "ticks")
 	multi := false
@@ -206,7 +240,14 @@ func runC20(r *simkit.Run) {
 			batch = append(batch, k)
 			if c.Chance(120, "mechanism-refuses") {
 				refuse[k.eon] = true
+				refuseKind[k.eon] = c.Weighted([]int{2, 1, 1}, "refusal-error-kind")
 				r.Fault("publication.refused")
+				lastFault = tick
+			}
+			if c.Chance(100, "mechanism-busy") {
+				slow[k.eon] = []time.Duration{time.Second, 2600 * time.Millisecond, 4 * time.Second, 7 * time.Second}[c.Intn(4, "busy-for")]
+				slowTotal += slow[k.eon]
+				r.Fault("publication.slow")
 				lastFault = tick
 			}
 		}
@@ -263,7 +304,7 @@ func runC20(r *simkit.Run) {
 	}
 	// two more fault-free ticks
 	stmtErr = 0
-	deadline := s.Now() + 5*time.Second
+	deadline := s.Now() + 5*time.Second + 2*slowTotal
 	for s.Now() < deadline {
 		if !s.Step(decide) {
 			s.Idle(50 * time.Millisecond)
@@ -319,7 +360,8 @@ func runC20(r *simkit.Run) {
 			continue
 		}
 		// n == 0: allowed only if refused, not a member, or a fault hit the fetch that deleted it
-		if refuse[k.eon] || !k.member {
+		// (a refusal counts only if the mechanism was really asked and answered with an error)
+		if refusedActual[k.eon] || !k.member {
 			r.Probe("no-obligation")
 			continue
 		}
